@@ -58,7 +58,7 @@ _PLAIN_BUILTINS = {"len", "bytes", "int", "str", "bool", "list", "tuple", "dict"
                    "bytearray", "abs", "iter", "next", "callable", "id", "hash", "vars", "dir", "map", "filter", "ord", "chr"}
 
 
-_SPEC_BUILTINS = {"HASH", "UUID5", "HEX", "ENC", "utf8", "TAG", "NAMESPACE_DNS", "UNHEX", "FILE", "TEXTFILE", "EXISTS", "HEXMAP", "HEX_PUT", "HEX_EMPTY", "HEX_MERGE", "HEX_TOBIN", "HEX_MIN", "HEX_MAX", "HEX_OVERLAP", "HEX_ISEMPTY", "HEX_FILE_OK", "in_version_grammar", "AESGCM_ENC", "KEYS_DIR", "pathstr"}
+_SPEC_BUILTINS = {"HASH", "UUID5", "HEX", "ENC", "utf8", "TAG", "NAMESPACE_DNS", "UNHEX", "FILE", "TEXTFILE", "EXISTS", "HEXMAP", "HEX_PUT", "HEX_EMPTY", "HEX_MERGE", "HEX_TOBIN", "HEX_MIN", "HEX_MAX", "HEX_OVERLAP", "HEX_ISEMPTY", "HEX_FILE_OK", "in_version_grammar", "AESGCM_ENC", "KEYS_DIR", "pathstr", "ECDSA_R", "ECDSA_S", "EDDSA_SIG", "SIGN", "KEY_IS_EC", "KEY_SIZE", "KEY_DATA", "KEY_KIND"}
 
 
 def builtin_name(it, name):
